@@ -118,7 +118,9 @@ func splitFrontMatter(raw []byte) (map[string]any, []byte) {
 		return nil, raw
 	}
 
-	body := strings.TrimSpace(parts[2])
+	// Only blank lines are dropped around the body: the indentation of its
+	// first line is significant (an indented code block).
+	body := strings.TrimRight(strings.TrimLeft(parts[2], "\r\n"), " \t\r\n")
 	return fm, []byte(body)
 }
 
